@@ -10,7 +10,7 @@ namespace Sedpack.Src
 
 /-- none of the reading-side functions stores anything on `self` -/
 theorem C02_src_readers_keep_no_state :
-    (hasSelfStore shardInfoIterator || hasSelfStore shardPathsDataset || hasSelfStore asNumpyCommon || hasSelfStore asNumpyIterator
+    (hasSelfStore shardInfoIterator || hasSelfStore shardInfoWalk || hasSelfStore shardPathsDataset || hasSelfStore asNumpyCommon || hasSelfStore asNumpyIterator
       || hasSelfStore asNumpyIteratorConcurrent || hasSelfStore asNumpyIteratorAsync || hasSelfStore asNumpyIteratorRust
       || hasSelfStore asTfdataset) = false := by decide +kernel
 /-- every pass starts by enumerating the shard infos again: the path stream begins with `shard_paths_dataset`, which begins with
@@ -20,5 +20,11 @@ theorem C02_src_pass_starts_from_the_description :
       && asTfdataset.head? == some "shard_paths_dataset"
       && asNumpyIterator.head? == some "as_numpy_common" && asNumpyIteratorConcurrent.head? == some "as_numpy_common"
       && asNumpyIteratorAsync.head? == some "as_numpy_common") = true := by decide +kernel
+
+/-- the recursive walk reads each list file when it reaches it (`read_text` before the list is parsed and its entries are yielded)
+and yields the list's own shards before it descends into the children -/
+theorem C02_src_walk_reads_then_yields :
+    (allBefore shardInfoWalk "read_text" "model_validate_json" && allBefore shardInfoWalk "model_validate_json" "yieldfrom"
+      && occurrences shardInfoWalk "read_text" == 1) = true := by decide +kernel
 
 end Sedpack.Src
